@@ -1,6 +1,6 @@
 (** C06 — Nucleus reconciliation never contradicts its inputs or the periodic table.
     Property theorems only; each is closed by [exact] of a lemma from Proofs/Nucleus.v, Proofs/NucleusKeys.v,
-    Proofs/NucleusLabel.v, Proofs/NucleusLabelExact.v or Proofs/NucleusClass.v.
+    Proofs/NucleusLabel.v, Proofs/NucleusLabelExact.v, Proofs/NucleusClass.v or Proofs/NucleusCacheKey.v.
     Model: Model/Nucleus.v ([reconcile] = reconcile_nucleus, [parse_label] = parse_nucleus_label) over the
     shipped table Gen/PTable.v (regenerated from /repo on every run); masses are exact rationals.
 
@@ -22,7 +22,13 @@
     7. "the result does not depend on earlier calls" -> C06_history_independent: a model of functools.lru_cache
        (maxsize 512, exceptions not cached, hits refresh, LRU eviction, cache_clear) around [reconcile]; every answer in
        every history of calls and clears equals the uncached answer.  The hypothesis that makes this true — equal keys
-       denote the same call — is exactly what a coarser key breaks; on the implementation: history stream.
+       denote the same call — is exactly what a coarser key breaks: C06_cache_key_must_separate (the hypothesis is also
+       NECESSARY: a memo that identifies a call with an earlier successful one of a different answer gets a history
+       wrong), C06_every_argument_is_significant (for each of the nine arguments two calls that differ in it only —
+       unspecified vs explicit — with different outcomes) and C06_cache_key_must_distinguish (so any history-independent
+       memo keys on all nine; "real unspecified" is not "real=True": C06_ex_unspecified_real).  On the implementation:
+       history stream, incl. pairs of calls that differ only in one clue/option being unspecified vs explicit, in both
+       orders on a warm cache, also through one-atom from_arrays columns.
     8. "and is reproduced when the output is fed back" -> C06_feedback_fixed_point (0 <= mtol <= 1/4; beyond: known
        finding C06-wide-mtol-feedback).
     9. label grammar ("a label such as '@13C_tag@13.003'") -> C06_parse_label_spec (parse_label s = Ok f <-> Label s f:
@@ -32,7 +38,7 @@
     the hand-written recogniser and regex.NUCLEUS is differential (label stream), not a translation. *)
 From Coq Require Import ZArith List Bool String QArith Qabs.
 Require Import QV.Common.Outcome QV.Gen.PTable QV.Model.Nucleus QV.Proofs.NucleusKeys QV.Proofs.Nucleus QV.Proofs.NucleusLabel.
-Require Import QV.Proofs.NucleusLabelExact QV.Proofs.NucleusClass.
+Require Import QV.Proofs.NucleusLabelExact QV.Proofs.NucleusClass QV.Proofs.NucleusCacheKey.
 Import ListNotations.
 Open Scope Z_scope.
 
@@ -126,6 +132,29 @@ Theorem C06_history_independent :
     fst (run nuc_in nuc_out key_eqb reconcile lru_maxsize [] h) = pure nuc_in nuc_out reconcile h.
 Proof. exact reconcile_history_independent. Qed.
 
+(** The hypothesis of the cache theorem is necessary, for ANY memo of this shape (any key comparison, any size >= 1): if
+    every history is answered like the uncached function, a call is only ever identified with a stored successful call
+    that has the same answer. *)
+Theorem C06_cache_key_must_separate :
+  forall (keq : nuc_in -> nuc_in -> bool) (maxsize : nat), (1 <= maxsize)%nat ->
+    (forall h, fst (run nuc_in nuc_out keq reconcile maxsize [] h) = pure nuc_in nuc_out reconcile h) ->
+    forall a b v, reconcile a = Ok v -> keq b a = true -> reconcile b = Ok v.
+Proof. intros keq maxsize. exact (key_must_separate nuc_in nuc_out keq reconcile maxsize). Qed.
+
+(** Every one of the nine arguments matters on its own: for each there are two calls that agree in all the others,
+    the first succeeds, and the second (the clue made explicit / the option flipped) has a different outcome. *)
+Theorem C06_every_argument_is_significant :
+  forall fd, exists a b v, same_except fd a b /\ reconcile a = Ok v /\ reconcile b <> Ok v.
+Proof. exact every_argument_is_significant. Qed.
+
+(** Hence a history-independent memo around reconcile_nucleus tells apart, for each argument, two calls that differ in
+    that argument only — in particular "unspecified" from every explicit value. *)
+Theorem C06_cache_key_must_distinguish :
+  forall keq : nuc_in -> nuc_in -> bool,
+    (forall h, fst (run nuc_in nuc_out keq reconcile lru_maxsize [] h) = pure nuc_in nuc_out reconcile h) ->
+    forall fd, exists a b, same_except fd a b /\ keq b a = false.
+Proof. exact cache_key_must_distinguish. Qed.
+
 (** Non-vacuity. *)
 Definition ex_in : nuc_in :=
   {| nA := Some 59; nZ := Some 27; nE := Some "cO"%string; nmass := Some (58933195048 # 1000000000); nreal := None;
@@ -163,6 +192,10 @@ Example C06_ex_history :
   fst (run nuc_in nuc_out key_eqb reconcile lru_maxsize [] [Call nuc_in ex_in; Call nuc_in ex_contra; Clear nuc_in; Call nuc_in ex_in; Call nuc_in ex_in])
   = [Ok ex_out; Err Validation; Ok ex_out; Ok ex_out].
 Proof. vm_compute. reflexivity. Qed.
+(** label "@he" alone is a ghost helium; the same label with real=True is refused *)
+Example C06_ex_unspecified_real :
+  exists v, reconcile (fst (witness Freal)) = Ok v /\ oreal v = false /\ reconcile (snd (witness Freal)) = Err Validation.
+Proof. exact unspecified_real_is_not_true. Qed.
 Example C06_ex_label : parse_label "Gh(40Ca_mine@1.07)" =
   Ok {| lA := Some 40; lZ := None; lE := Some "Ca"%string; lmass := Some (107 # 100); lreal := false; luser := Some "_mine"%string |}.
 Proof. vm_compute. reflexivity. Qed.
@@ -182,3 +215,6 @@ Print Assumptions C06_parse_label_refuses.
 Print Assumptions C06_not_an_element_only_for_unknown_names.
 Print Assumptions C06_contradiction_is_validation_error.
 Print Assumptions C06_history_independent.
+Print Assumptions C06_cache_key_must_separate.
+Print Assumptions C06_every_argument_is_significant.
+Print Assumptions C06_cache_key_must_distinguish.
